@@ -322,3 +322,12 @@ def byz_raw_op(r, mid):
     else:
         body = r.choice([b"", ber.enumerated(0) + ber.octets(b"") + ber.octets(b"")])
     return {"t": "RawOp", "id": mid, "controls": [], "tag": tag, "constructed": True, "body": body.hex()}
+
+
+GARBAGE_UNITS = ["3000", "30020201", "300402050001", "3003020107", "3081030201ff", "04020000", "30060201ff420000", "0000",
+                 "308400000000", "3005020100a000"]
+
+
+def garbage_unit(r):
+    """A complete outer TLV that is certainly not a valid LDAPMessage (invalid payload)."""
+    return r.choice(GARBAGE_UNITS)
